@@ -54,6 +54,11 @@ Proof.
   now rewrite last_opt_snoc.
 Qed.
 
+Lemma last_opt_none {A} (l : list A) : last_opt l = None -> l = [].
+Proof.
+  induction l as [|a l IH]; [reflexivity|]. simpl. destruct l; [discriminate|]. intros H. discriminate (IH H).
+Qed.
+
 Lemma last_opt_app {A} (l m : list A) : m <> [] -> last_opt (l ++ m) = last_opt m.
 Proof.
   intros Hm. induction l as [|x l IH]; [reflexivity|].
